@@ -1,4 +1,4 @@
 SPECIFICATION Spec
-CONSTANTS NG = 3 Keys = {1} Rounds = 1 Modes = {"w", "r"} WRels = {"unlock"} RRels = {"runlock", "deleterunlock"} PlainDelete = FALSE Repaired = FALSE
+CONSTANTS NG = 3 Keys = {1} Rounds = 1 Modes = {"w", "r"} WRels = {"unlock"} RRels = {"runlock", "deleterunlock"} PlainDelete = FALSE Repaired = FALSE NonAtomicDeleteUnlock = FALSE
 INVARIANTS Contract
 CHECK_DEADLOCK FALSE
